@@ -97,3 +97,13 @@ def run(cx):
     G.range_guard(cx, 'L-SM9D-LEN', 'decrypt', fn, P, idx or sinks, lambda e: cn.c(norm(e)) == 'len($data)', 97, 97 + 255,
                   'ciphertext length must be within [97, 352] (C1 65 + C3 32 + 0..255 bytes) before it is sliced')
     # C1 tag byte
+
+
+_run_pow2 = run
+
+
+def run(cx):
+    from .. import rules_s as S
+    _run_pow2(cx)
+    # g^r / g^h: the GT exponentiation is a complete square-and-multiply over the four limbs of the exponent
+    S.square_multiply(cx, 'I-POW', '<impl fields::fp12::Fp12>::pow')
